@@ -17,7 +17,7 @@ from ..recipes import build as B
 from ..recipes import ref as R
 
 LEVEL = "exploration"
-BUDGET_S = {"quick": 80, "thorough": 1500}
+BUDGET_S = {"quick": 420, "thorough": 1500}
 N_RANDOM = {"quick": 500, "thorough": 15000}
 RTOL = 1e-6
 MAXN = 7
@@ -122,6 +122,29 @@ def run_case(case, rec):
                         if d > worst.get(key, (0, None))[0]:
                             worst[key] = (d, (pt, float(got[i, k]), float(want[i, k])))
             rec.cmp(n * n, cell)
+    # parameters updated after compilation: the compiled Hessian and the symbolic entries must follow the current values
+    if b.params and any(x[0] in ("par", "pel") for x in A.walk(node)):
+        newvals = {pn: [0.75, -1.25, 2.25, 0.5, 0.0, 1.0][(i + n) % 6] for i, pn in enumerate(sorted(b.params))}
+        for pn, nv in newvals.items():
+            b.params[pn].set(nv)
+        pt = case["points"][0]
+        j, t = R.ref_jet(D, node, V, pt, order=2, params=newvals)
+        if t.regular(0.05) and np.all(np.isfinite(j.H)):
+            mag = max(t.mag, t.dmag)
+            try:
+                if fn is not None:
+                    got = np.asarray(fn(B.point_array(V, pt)), dtype=float)
+                    rec.cmp(n * n, cell)
+                    rec.events["after-set-comparisons"] += 1
+                    if got.shape != (n, n) or not all(close(got[i, k], j.H[i, k], RTOL, mag)[0] for i in range(n) for k in range(n)):
+                        bad("compile_hessian", "after-set:mismatch", pt, got=got.tolist(), want=np.asarray(j.H).tolist())
+                if sym is not None:
+                    gs = np.array([[float(np.asarray(sym[i][k].evaluate(dict(pt))).reshape(-1)[0]) for k in range(n)] for i in range(n)])
+                    rec.cmp(n * n, cell)
+                    if not all(close(gs[i, k], j.H[i, k], RTOL, mag)[0] for i in range(n) for k in range(n)):
+                        bad("compute_hessian", "after-set:mismatch", pt, got=gs.tolist(), want=np.asarray(j.H).tolist())
+            except Exception as ex:
+                bad("compile_hessian", "after-set-raises:" + type(ex).__name__, pt, ex=ex)
     seen = set()
     for key, k in nbad.items():
         if (k >= 2 or worst[key][0] > 1e-3) and key[0] not in seen:
